@@ -407,6 +407,25 @@ var ruleCfgG3 = &Rule{
 							ok2 = true
 						}
 					}
+					if !ok2 {
+						// an unexported function all of whose call sites sit on the kept branch for that very type
+						// (pushParseErrors, extracted from a loop that keeps the guard)
+						if etc, isConst := errTypeConst(et); isConst {
+							if sites, closed := closedCallSites(c, f); closed && len(sites) > 0 {
+								all := true
+								for _, cs := range sites {
+									covered := false
+									for _, g := range ignoreGuards(cs.Parent(), "IsIgnoreErrorFile", 2) {
+										if a, oka := errTypeConst(g.typ); oka && a == etc && dominatedByKept(g, cs.Block()) {
+											covered = true
+										}
+									}
+									all = all && covered
+								}
+								ok2 = all
+							}
+						}
+					}
 					if ok2 {
 						obs = append(obs, Ob{Key: key, Site: c.Pos(st.Pos()), Verdict: OK, Note: "append dominated by the kept-branch of IsIgnoreErrorFile with the same type"})
 					} else {
